@@ -31,8 +31,11 @@ GAIN = st.one_of(st.sampled_from([1.0, 2.0, 0.5, 16.0]), st.floats(0.1, 50.0))
 @st.composite
 def base_sample(draw, max_d=6, max_n=40):
     spec = draw(sample_spec(min_d=1, max_d=max_d, min_n=1, max_n=max_n, datatypes=('I', 'I', 'F'), log_amp=False,
-                            int_widths=(16, 32)))
+                            int_widths=(16, 32), with_time=True))          # a channel may be called 'Time': still a channel
     D = len(spec['widths'])
+    if draw(st.sampled_from([True, False, False, False])):
+        # acquisition software for which some readers know vendor keywords; the standard settings stay what they are
+        spec['extra'] = [['CREATOR', draw(st.sampled_from(['FlowJoCollectorsEdition 7.5.110.7', 'CellQuest Pro 5.2.1']))]]
     if draw(st.booleans()):
         for j in range(D):
             spec['ranges'][j] = draw(st.one_of(st.integers(2, 5000), st.sampled_from([256, 1024, 65536])))
